@@ -157,6 +157,7 @@ func checkC04(w *World, r *Report) {
 	// whatever fails inside a try body - including a panic of a host function bound without the binder's own
 	// barrier - is catchable: the function that runs the try body starts with a deferred handler that calls
 	// recover() itself (recover only works in the deferred function's own frame)
+	recoverDirectRule(w, r, "C04.recover-direct")
 	r.rule("C04.try-barrier", "the function or closure that evaluates the body of try starts by deferring a function that calls recover() directly and stores the error into the runner's own result (a panic raised in a try body reaches catch instead of the host)")
 	if m := newEvalModel(w, e); m.ok {
 		if reg, ok := m.regions["try"]; ok {
@@ -395,4 +396,55 @@ func doPrecondRule(w *World, r *Report, e *Engine) {
 		r.check(ok, "C04.precond", ec.fn, construct, ec.call.Pos(), fmt.Sprintf("len >= %d: %s", k.Int64(), why), fmt.Sprintf("the form is not known to have %d elements here (%s): the helper would slice beyond the list and panic", k.Int64(), why))
 	}
 	r.floor("C04.precond", "calls of the body helper", n, 4)
+}
+
+// recoverDirectRule: recover() only stops a panic when it is called by the deferred function itself.  So every
+// function of the module that calls recover() must be used in exactly one way: as the operand of a defer
+// statement.  Calling it from another deferred function (or closure) makes it return nil and the panic goes on.
+func recoverDirectRule(w *World, r *Report, rule string) {
+	r.rule(rule, "every function of the module that calls recover() is only ever invoked as the operand of a defer statement (recover() returns nil when called one frame deeper, e.g. from a deferred closure that calls the handler): all recover barriers of the evaluator, the try form and the binder actually work")
+	n := 0
+	for _, h := range w.Funcs {
+		if isTestFunc(w, h) || !strings.HasPrefix(fnPkgPath(h), modPath) || !w.recoverHandler(h) {
+			continue
+		}
+		if h.Parent() != nil {
+			// a closure that calls recover(): must itself be the deferred function
+			for _, b := range h.Parent().Blocks {
+				for _, in := range b.Instrs {
+					mc, ok := in.(*ssa.MakeClosure)
+					if !ok || mc.Fn != ssa.Value(h) {
+						continue
+					}
+					for _, ref := range *mc.Referrers() {
+						n++
+						_, isDefer := ref.(*ssa.Defer)
+						if _, isDbg := ref.(*ssa.DebugRef); isDbg {
+							n--
+							continue
+						}
+						r.check(isDefer, rule, h.Parent(), "use of a closure that calls recover()", ref.Pos(), "deferred directly", "a closure that calls recover() is not the operand of a defer: recover() returns nil there")
+					}
+				}
+			}
+			continue
+		}
+		for _, f := range w.Funcs {
+			if isTestFunc(w, f) {
+				continue
+			}
+			for _, b := range f.Blocks {
+				for _, in := range b.Instrs {
+					ci, ok := in.(ssa.CallInstruction)
+					if !ok || ci.Common().StaticCallee() != h {
+						continue
+					}
+					n++
+					_, isDefer := in.(*ssa.Defer)
+					r.check(isDefer, rule, f, "call of the recover handler "+h.Name(), in.Pos(), "defer "+h.Name()+"(…)", "the handler is called from another function instead of being deferred itself: its recover() runs one frame too deep and returns nil, so the panic it was meant to catch escapes")
+				}
+			}
+		}
+	}
+	r.floor(rule, "uses of functions that call recover()", n, 3)
 }
